@@ -36,8 +36,8 @@ PROPS = {
             "penalty_le_90pct", "split_accounted", "split_all_to_collector_when_no_active_farm",
             "split_all_to_collector_when_share_rounds_to_zero", "owner_share_is_half",
             "MantraDex.C09Sys.emergency_withdraw_tx_effect", "MantraDex.C09Sys.uniqueOwners_nodup",
-            "MantraDex.C02Live.emergency_withdraw_live_partial", "MantraDex.MonSoundB.monWithdrawPos_emergency_sound", "MantraDex.NonVac2.monWithdrawPos_emergency_sound_applies"],
-        "extra_modules": ["MantraDex.Properties.C09Sys", "MantraDex.Properties.C02Live", "MantraDex.Properties.MonSoundB", "MantraDex.Properties.NonVacuity2"],
+            "MantraDex.C02Live.emergency_withdraw_live_partial", "MantraDex.MonSoundB.monWithdrawPos_emergency_sound", "MantraDex.NonVac2.monWithdrawPos_emergency_sound_applies", "MantraDex.MonSoundE.monPenaltyTotal_sound"],
+        "extra_modules": ["MantraDex.Properties.C09Sys", "MantraDex.Properties.C02Live", "MantraDex.Properties.MonSoundB", "MantraDex.Properties.NonVacuity2", "MantraDex.Properties.MonSoundE"],
         "streams": {"farmmath": (6000, 300000), "fm_hist": (120, 3000)},
         "what": "THROUGH THE RUNTIME (C09Sys.emergency_withdraw_tx_effect): an accepted emergency withdrawal is signed by the position's owner, deletes the "
                 "position, leaves farms and the pool manager untouched, and moves EXACTLY: amount - penalty to the owner, the same share to every distinct owner of "
@@ -59,9 +59,8 @@ PROPS = {
             "MantraDex.C10Sys.winv_step", "MantraDex.C10Sys.winv_init", "MantraDex.C10Sys.weights_covered_reachable",
             "MantraDex.NonVacuity.w0_wInv", "MantraDex.NonVacuity.hist_stable", "MantraDex.NonVacuity.instance_weights",
             "MantraDex.C10Eq.exact_step", "MantraDex.C10Eq.exact_init", "MantraDex.C10Eq.total_eq_sum_of_users", "MantraDex.C10Eq.exact_reachable",
-            "MantraDex.C10Eq.whole_history_exact", "MantraDex.C10Eq.pieces_not_exact", "MantraDex.C10Eq.partial_not_exact",
-        ],
-        "extra_modules": ["MantraDex.Properties.C10H", "MantraDex.Properties.C10Sys", "MantraDex.Properties.NonVacuity", "MantraDex.Properties.C10Eq"],
+            "MantraDex.C10Eq.whole_history_exact", "MantraDex.C10Eq.pieces_not_exact", "MantraDex.C10Eq.partial_not_exact", "MantraDex.MintInv.mint_wInv", "MantraDex.MintInv.mint_wcore", "MantraDex.MintInv.mint_exact"],
+        "extra_modules": ["MantraDex.Properties.C10H", "MantraDex.Properties.C10Sys", "MantraDex.Properties.NonVacuity", "MantraDex.Properties.C10Eq", "MantraDex.Properties.MintInv"],
         "streams": {"farmmath": (6000, 300000), "fm_hist": (120, 3000)},
         "what": "weight curve: weight >= amount, <= 16*amount (multiplier at one year evaluated from the generated coefficients), "
                 "monotone in amount and duration, super-additive in amount (source of F-07); update_weights moves the user's and the "
@@ -87,9 +86,9 @@ PROPS = {
                      "MantraDex.NonVacuity.w0_allInv", "MantraDex.NonVacuity.hist_effective", "MantraDex.NonVacuity.instance_custody",
                      "MantraDex.C01Exact.excess_tx_exact", "MantraDex.C01Exact.excess_history_exact",
                      "MantraDex.C01Exact.Cx.pmCollector_needed", "MantraDex.C01Exact.Cx.fmCollector_needed", "MantraDex.C01Exact.Cx.farmOwners_needed",
-                     "MantraDex.C01Exact.Cx.swapReceiver_needed", "MantraDex.C01Exact.Cx.routeReceiver_needed", "MantraDex.C01Exact.Cx.oddUnit_instance", "MantraDex.MonSound.monPmExcess_sound", "MantraDex.MonSoundC.monPmCustody_sound", "MantraDex.MonSoundC.monPmCustody_locked_sound", "MantraDex.NonVac2.monPmExcess_sound_applies", "MantraDex.NonVac2.monPmExcess_sound_applies_gift", "MantraDex.NonVac2.monPmExcess_sound_applies_odd"],
+                     "MantraDex.C01Exact.Cx.swapReceiver_needed", "MantraDex.C01Exact.Cx.routeReceiver_needed", "MantraDex.C01Exact.Cx.oddUnit_instance", "MantraDex.MonSound.monPmExcess_sound", "MantraDex.MonSoundC.monPmCustody_sound", "MantraDex.MonSoundC.monPmCustody_locked_sound", "MantraDex.NonVac2.monPmExcess_sound_applies", "MantraDex.NonVac2.monPmExcess_sound_applies_gift", "MantraDex.NonVac2.monPmExcess_sound_applies_odd", "MantraDex.MintInv.mint_allInv_partial", "MantraDex.MintInv.mint_pmInv", "MantraDex.MintInv.mint_nonfactory_breaks_allInv", "MantraDex.MintInv.mintWorld_effect"],
         "extra_modules": ["MantraDex.Properties.C01Sys", "MantraDex.Properties.C02Sys", "MantraDex.Properties.C01All", "MantraDex.Properties.NonVacuity",
-                          "MantraDex.Properties.C01Exact", "MantraDex.Properties.MonSound", "MantraDex.Properties.MonSoundC", "MantraDex.Properties.NonVacuity2"],
+                          "MantraDex.Properties.C01Exact", "MantraDex.Properties.MonSound", "MantraDex.Properties.MonSoundC", "MantraDex.Properties.NonVacuity2", "MantraDex.Properties.MintInv"],
         "streams": {"pm_hist": (160, 4000), "faults": (45, 1500)},
         "what": "handler-level conservation law of the pool manager for every non-LP token: reserves' + outflow(messages) = reserves + inflow(funds) "
                 "for swap, routed swap (any length), withdraw, multi-asset deposit, pool creation (keeps nothing), config/ownership; the single-asset "
@@ -116,8 +115,8 @@ PROPS = {
                      "MantraDex.C14Eq.single_asset_equals_two_step_partial",
                      "MantraDex.C15Sys.positions_change_only_by_owner_tx_partial", "MantraDex.C15Sys.new_positions_belong_to_signer_partial",
                      "MantraDex.C14Lock.single_asset_locked_equals_two_step_partial", "MantraDex.C14Lock.single_asset_locked_equals_two_step_fields",
-                     "MantraDex.C14Lock.single_asset_locks_for_sender"],
-        "extra_modules": ["MantraDex.Properties.C14Eq", "MantraDex.Properties.C15Sys", "MantraDex.Properties.C14Lock"],
+                     "MantraDex.C14Lock.single_asset_locks_for_sender", "MantraDex.MonSoundE.monSingleShape_sound"],
+        "extra_modules": ["MantraDex.Properties.C14Eq", "MantraDex.Properties.C15Sys", "MantraDex.Properties.C14Lock", "MantraDex.Properties.MonSoundE"],
         "streams": {"pm_hist": (160, 4000), "twin": (120, 3000), "faults": (45, 1500), "fm_hist": (120, 3000)},
         "what": "single-asset deposits are refused on empty / larger pools; neither path can lock LP for someone other than the sender and an existing "
                 "position must belong to the receiver; first leg = simulate, buffer (expected balances, options), swap exactly floor(a/2) via a "
@@ -240,8 +239,8 @@ PROPS = {
                      "MantraDex.C02Sys.lp_supply_ge_min_reachable", "MantraDex.C02Sys.lp_supply_moves_only_by_deposit_or_withdrawal",
                      "MantraDex.C02Sys.lp_funded_step", "MantraDex.C03Sys.cp_value_per_lp_step", "MantraDex.C03Sys.cp_value_per_lp_reachable",
                      "MantraDex.C16Tx.withdraw_liquidity_tx_effect_partial", "MantraDex.C16Tx.provide_liquidity_tx_effect_partial",
-                     "MantraDex.C02Live.withdraw_liquidity_live_partial", "MantraDex.MonSound.monWithdraw_sound", "MantraDex.MonSound.monCpDeposit_sound_partial", "MantraDex.MonSound.monCpDeposit_sound_counterexample", "MantraDex.NonVac2.monWithdraw_sound_applies", "MantraDex.NonVac2.monCpDeposit_sound_partial_applies"],
-        "extra_modules": ["MantraDex.Properties.C02Sys", "MantraDex.Properties.C03Sys", "MantraDex.Properties.C16Tx", "MantraDex.Properties.C02Live", "MantraDex.Properties.MonSound", "MantraDex.Properties.NonVacuity2"],
+                     "MantraDex.C02Live.withdraw_liquidity_live_partial", "MantraDex.MonSound.monWithdraw_sound", "MantraDex.MonSound.monCpDeposit_sound_partial", "MantraDex.MonSound.monCpDeposit_sound_counterexample", "MantraDex.NonVac2.monWithdraw_sound_applies", "MantraDex.NonVac2.monCpDeposit_sound_partial_applies", "MantraDex.MintInv.mint_lpInv_partial"],
+        "extra_modules": ["MantraDex.Properties.C02Sys", "MantraDex.Properties.C03Sys", "MantraDex.Properties.C16Tx", "MantraDex.Properties.C02Live", "MantraDex.Properties.MonSound", "MantraDex.Properties.NonVacuity2", "MantraDex.Properties.MintInv"],
         "streams": {"mintmath": (3000, 150000), "pm_hist": (160, 4000)},
         "what": "constant product: later mint = min over the two assets of floor(deposit*supply/reserve) <= the proportional contribution; x*y/supply^2 "
                 "never decreases through a deposit or a withdrawal; first mint + locked 1000 = floor(sqrt(d0*d1)); a withdrawal pays floor(reserve*burned/"
@@ -299,8 +298,8 @@ PROPS = {
         "module": "MantraDex.Properties.C04", "ns": "MantraDex.C04",
         "theorems": ["fee_is_floor_share", "fee_never_more", "computeFees_ok", "net_is_gross_minus_fees", "computeSwap_split",
                      "performSwap_ok", "swapHandler_messages", "routeHops_chain", "routeHops_fee_msgs",
-                     "MantraDex.C04Sys.swap_tx_effect", "MantraDex.C12Sys.route_tx_effect", "MantraDex.MonSoundB.monSwapReserves_sound", "MantraDex.MonSoundB.monSwapBank_sound", "MantraDex.MonSoundC.monSwapFees_sound", "MantraDex.NonVac2.monSwapBank_sound_applies"],
-        "extra_modules": ["MantraDex.Properties.C04Sys", "MantraDex.Properties.C12Sys", "MantraDex.Properties.MonSoundB", "MantraDex.Properties.MonSoundC", "MantraDex.Properties.NonVacuity2"],
+                     "MantraDex.C04Sys.swap_tx_effect", "MantraDex.C12Sys.route_tx_effect", "MantraDex.MonSoundB.monSwapReserves_sound", "MantraDex.MonSoundB.monSwapBank_sound", "MantraDex.MonSoundC.monSwapFees_sound", "MantraDex.NonVac2.monSwapBank_sound_applies", "MantraDex.MonSoundE.route_broken_link_refused"],
+        "extra_modules": ["MantraDex.Properties.C04Sys", "MantraDex.Properties.C12Sys", "MantraDex.Properties.MonSoundB", "MantraDex.Properties.MonSoundC", "MantraDex.Properties.NonVacuity2", "MantraDex.Properties.MonSoundE"],
         "streams": {"swapmath": (4000, 200000), "pm_hist": (120, 3000)},
         "what": "each fee = floor(gross*share) (never more); receiver gets gross minus all fees; perform_swap adds the offer in full and removes "
                 "exactly net+protocol+burn from the ask reserve, nothing else changes; a direct swap emits exactly [send net to receiver][burn]"
@@ -320,8 +319,8 @@ PROPS = {
                      "MantraDex.C06Sys.no_epoch_paid_twice_partial", "MantraDex.C06Sys.no_epoch_paid_twice_nonzero",
                      "MantraDex.C06Sys.no_epoch_paid_twice_default_until",
                      "MantraDex.C07Sys.claimed_eq_ledger", "MantraDex.C07Sys.claimed_le_emitted", "MantraDex.C07Sys.claim_never_exhausted",
-                     "MantraDex.C08Tx.claim_tx_effect", "MantraDex.NonVacuity.hist_effective_detail", "MantraDex.NonVacuity.instance_emission", "MantraDex.MonSoundD.monClaim_sound_partial", "MantraDex.MonSoundD.claim_moves_claimed_by_spanReward", "MantraDex.MonSoundD.monClaim_sound_counterexample"],
-        "extra_modules": ["MantraDex.Properties.C07Split", "MantraDex.Properties.C06Sys", "MantraDex.Properties.C07Sys", "MantraDex.Properties.C08Tx", "MantraDex.Properties.NonVacuity", "MantraDex.Properties.MonSoundD"],
+                     "MantraDex.C08Tx.claim_tx_effect", "MantraDex.NonVacuity.hist_effective_detail", "MantraDex.NonVacuity.instance_emission", "MantraDex.MonSoundD.monClaim_sound_partial", "MantraDex.MonSoundD.claim_moves_claimed_by_spanReward", "MantraDex.MonSoundD.monClaim_sound_counterexample", "MantraDex.MintInv.mint_jInv", "MantraDex.MintInv.mint_txInvs"],
+        "extra_modules": ["MantraDex.Properties.C07Split", "MantraDex.Properties.C06Sys", "MantraDex.Properties.C07Sys", "MantraDex.Properties.C08Tx", "MantraDex.Properties.NonVacuity", "MantraDex.Properties.MonSoundD", "MantraDex.Properties.MintInv"],
         "streams": {"fm_hist": (160, 4000)},
         "what": "END TO END OVER WHOLE HISTORIES (C06Sys): a ledger of every reward payment is derived from the history (the per-epoch terms of every ACCEPTED "
                 "top-level Claim; the coins a claim sends are exactly the sum of its entries, claim_pays_entries); in every history of account-signed transactions from a "
@@ -374,8 +373,8 @@ PROPS = {
                      "MantraDex.C15Sys.positions_change_only_by_owner_tx_partial", "MantraDex.C15Sys.new_positions_belong_to_signer_partial",
                      "MantraDex.C08Tx.create_position_tx_effect", "MantraDex.C08Tx.expand_position_tx_effect",
                      "MantraDex.C08Tx.close_position_tx_effect_general", "MantraDex.C08Tx.close_position_tx_effect_partial",
-                     "MantraDex.PosTx.Cx.close_zero_counterexample", "MantraDex.MonSoundC.monWithdrawPosAccept_sound", "MantraDex.MonSoundC.monWithdrawPos_normal_sound"],
-        "extra_modules": ["MantraDex.Properties.C08Sys", "MantraDex.Properties.C15Sys", "MantraDex.Properties.C08Tx", "MantraDex.Properties.MonSoundC"],
+                     "MantraDex.PosTx.Cx.close_zero_counterexample", "MantraDex.MonSoundC.monWithdrawPosAccept_sound", "MantraDex.MonSoundC.monWithdrawPos_normal_sound", "MantraDex.MonSoundE.monCloseExpiry_sound"],
+        "extra_modules": ["MantraDex.Properties.C08Sys", "MantraDex.Properties.C15Sys", "MantraDex.Properties.C08Tx", "MantraDex.Properties.MonSoundC", "MantraDex.Properties.MonSoundE"],
         "streams": {"fm_hist": (160, 4000)},
         "what": "a non-emergency withdrawal is accepted only from the owner, for a closed position whose unlock instant (close time + unlocking "
                 "duration, boundary second included) is reached, pays exactly the recorded amount and deletes the position; an emergency request after "
@@ -398,8 +397,8 @@ PROPS = {
                      "claim_conserves", "create_farm_conserves", "expand_farm_conserves", "close_farm_conserves", "config_conserves",
                      "MantraDex.C05Sys.fm_inv_step", "MantraDex.C05Sys.fm_inv_reachable", "MantraDex.C05Sys.fm_custody_reachable",
                      "MantraDex.C05Sys.fm_inv_init", "MantraDex.C08Tx.claim_tx_effect", "MantraDex.NonVacuity.w0_fmInv", "MantraDex.NonVacuity.instance_custody",
-                     "MantraDex.C02Live.close_farm_live", "MantraDex.C08Sys.withdraw_after_unlock"],
-        "extra_modules": ["MantraDex.Properties.C05Sys", "MantraDex.Properties.C08Tx", "MantraDex.Properties.NonVacuity", "MantraDex.Properties.C02Live", "MantraDex.Properties.C08Sys"],
+                     "MantraDex.C02Live.close_farm_live", "MantraDex.C08Sys.withdraw_after_unlock", "MantraDex.MintInv.mint_fmInv", "MantraDex.MintInv.mint_fmCov"],
+        "extra_modules": ["MantraDex.Properties.C05Sys", "MantraDex.Properties.C08Tx", "MantraDex.Properties.NonVacuity", "MantraDex.Properties.C02Live", "MantraDex.Properties.C08Sys", "MantraDex.Properties.MintInv"],
         "streams": {"fm_hist": (160, 4000), "faults": (45, 1500)},
         "what": "handler-level conservation law of the farm manager for every token: liability' + outflow(messages) <= liability + inflow(funds), "
                 "where liability = sum of recorded position amounts + sum over farms of (funded - claimed); proved for every message kind "
@@ -448,8 +447,8 @@ PROPS = {
         "theorems": ["simulation_eq_swap", "performSwap_frame", "route_eq_simulation", "reverse_quote_plus_one_suffices_partial", "reverse_quote_witness",
                      "MantraDex.C12Sys.swap_tx_equals_simulation", "MantraDex.C12Sys.simops_amount_eq_chain", "MantraDex.C12Sys.route_tx_chain",
                      "MantraDex.C12Sys.route_tx_simulation_agrees", "MantraDex.C12Sys.route_tx_equals_simulation_partial",
-                     "MantraDex.C12Sys.route_tx_equals_simulation_counterexample", "MantraDex.C12Sys.reverse_query_plus_one_suffices_partial"],
-        "extra_modules": ["MantraDex.Properties.C12Sys"],
+                     "MantraDex.C12Sys.route_tx_equals_simulation_counterexample", "MantraDex.C12Sys.reverse_query_plus_one_suffices_partial", "MantraDex.MonSoundE.monRouteUnquoted_sound", "MantraDex.MonSoundE.route_broken_link_refused"],
+        "extra_modules": ["MantraDex.Properties.C12Sys", "MantraDex.Properties.MonSoundE"],
         "streams": {"swapmath": (4000, 200000), "pm_hist": (120, 3000)},
         "what": "Simulation = Swap on all amounts in any state (both pool types); a swap leaves every other pool untouched; executing a route over "
                 "pairwise distinct pools yields exactly the chained simulation on the initial state; reverse quote + 1 suffices for zero fees "
